@@ -227,6 +227,10 @@ Ltac bool_hyps :=
   | H : is_idle ?p = true |- _ => destruct p eqn:?; simpl in H; try discriminate; clear H
   end.
 
+Ltac tinv_basic A :=
+  constructor; simpl; try discriminate; auto;
+  try (let L := fresh in intros L; apply A in L; destruct L; congruence); try exact I.
+
 Lemma step_ginv : forall s e s', ginv s -> step s e = Some s' -> ginv s'.
 Proof.
   intros s e s' G H. destruct e; unfold step in H.
@@ -325,42 +329,54 @@ Proof.
     assert (Hb : t_pc (thr s t) <> PExited -> t < nthr s) by (apply born_pc; auto).
     assert (Hoth : pc_cs (t_pc (thr s t)) = true -> forall x, x <> t -> pc_cs (t_pc (thr s x)) = true -> False).
     { intros Hcs x Hx Hx'. rewrite (others_not_cs _ _ G Hcs x Hx) in Hx'. discriminate. }
-    destruct (t_pc (thr s t)) eqn:Hpc; try discriminate.
-    + inversion H; subst; clear H.
-      apply ginv_local with (s := s); auto using ext_set_lock.
+    destruct (t_pc (thr s t)) eqn:Hpc; try discriminate; try destruct use; inversion H; subst; clear H;
+      (apply ginv_local with (s := s); auto using ext_set_lock;
+       [ apply Hb; discriminate
+       | apply reg_ext with (s := s); auto using ext_set_lock
+       | tinv_basic A
+       | simpl; discriminate
+       | intros x Hx Hx'; exfalso; eapply Hoth; eauto ]).
+    all: try (unfold pc_ok; simpl; exact P).
+    all: try (intros r0 [<-|Hr]; [exact P | apply C; exact Hr]; fail).
+    all: intros r0; destruct (t_seen (thr s t)) eqn:Hs; intros Hr; inversion Hr; subst; try exact P; apply F; reflexivity.
+  - (* EAfterGet *)
+    tinv_tac G t.
+    assert (Hb : t_pc (thr s t) <> PExited -> t < nthr s) by (apply born_pc; auto).
+    destruct (t_pc (thr s t)) eqn:Hpc; try discriminate. destruct r as [r|]; inversion H; subst; clear H.
+    + apply ginv_local_nocs with (s := s); auto using ext_refl.
       * apply Hb; discriminate.
-      * apply reg_ext with (s := s); auto using ext_set_lock.
-      * constructor; simpl; try discriminate; auto.
-        -- intros L; apply A in L; destruct L; congruence.
-        -- unfold pc_ok; simpl. exact P.
-      * simpl. discriminate.
-      * intros x Hx Hx'. exfalso. eapply Hoth; eauto.
-    + destruct use; inversion H; subst; clear H.
-      * apply ginv_local with (s := s); auto using ext_set_lock.
-        -- apply Hb; discriminate.
-        -- apply reg_ext with (s := s); auto using ext_set_lock.
-        -- constructor; simpl; try discriminate; auto.
-           ++ intros L; apply A in L; destruct L; congruence.
-           ++ intros r0 [<-|Hr]; auto. exact P.
-           ++ intros r0. destruct (t_seen (thr s t)) eqn:Hs; intros Hr; inversion Hr; subst; auto. exact P.
-           ++ exact I.
-        -- simpl. discriminate.
-        -- intros x Hx Hx'. exfalso. eapply Hoth; eauto.
-      * apply ginv_local with (s := s); auto using ext_set_lock.
-        -- apply Hb; discriminate.
-        -- apply reg_ext with (s := s); auto using ext_set_lock.
-        -- constructor; simpl; try discriminate; auto.
-           ++ intros L; apply A in L; destruct L; congruence.
-           ++ intros r0. destruct (t_seen (thr s t)) eqn:Hs; intros Hr; inversion Hr; subst; auto. exact P.
-           ++ exact I.
-        -- simpl. discriminate.
-        -- intros x Hx Hx'. exfalso. eapply Hoth; eauto.
-    + inversion H; subst; clear H.
-      apply ginv_local with (s := s); auto using ext_set_lock.
+      * apply gi_reg; auto.
+      * tinv_basic A.
+        all: try (intros r0 [<-|Hr]; [exact P | apply C; exact Hr]; fail).
+        all: intros r0; destruct (t_seen (thr s t)) eqn:Hs; intros Hr; inversion Hr; subst; try exact P; apply F; reflexivity.
+    + apply ginv_local_nocs with (s := s); auto using ext_alloc.
       * apply Hb; discriminate.
-      * apply reg_ext with (s := s); auto using ext_set_lock.
-      * constructor; simpl; try discriminate; auto.
-        -- intros L; apply A in L; destruct L; congruence.
-        -- exact I.
-      * simpl. discriminate.
-      * intros x Hx Hx'. exfalso. eapply Hoth; eauto.
+      * apply reg_ext with (s := s); auto using ext_alloc.
+      * tinv_basic A.
+        all: try (intros; eapply rec_ok_ext; [apply ext_alloc|]; auto; fail).
+        unfold pc_ok; simpl. apply rec_ok_alloc_new.
+  - (* EReturn *)
+    destruct (_ && _) eqn:Hc in H; [|discriminate]. bool_hyps.
+    tinv_tac G t.
+    destruct (t_frames (thr s t)) as [|r rest] eqn:Hf; [discriminate|].
+    destruct (_ && _) in H; [discriminate|]. inversion H; subst; clear H.
+    apply ginv_local_nocs with (s := s); auto using ext_refl.
+    + apply born_live; auto.
+    + apply gi_reg; auto.
+    + tinv_basic A. intros r0 Hr. apply C. right; auto.
+  - (* EFinish *)
+    destruct (_ && _) eqn:Hc in H; [|discriminate]. bool_hyps.
+    tinv_tac G t.
+    destruct (t_kind (thr s t)) eqn:Hk; try discriminate; inversion H; subst; clear H;
+      (apply ginv_local_nocs with (s := s); auto using ext_refl;
+       [ apply born_live; auto | apply gi_reg; auto | tinv_basic A ]).
+    all: try (intros []; fail).
+  - (* EExit *)
+    tinv_tac G t.
+    assert (Hb : t_pc (thr s t) <> PExited -> t < nthr s) by (apply born_pc; auto).
+    destruct (t_pc (thr s t)) eqn:Hpc; try discriminate. inversion H; subst; clear H.
+    apply ginv_local_nocs with (s := s); auto using ext_refl.
+    + apply Hb; discriminate.
+    + apply gi_reg; auto.
+    + tinv_basic A. intros r [].
+Qed.
